@@ -573,7 +573,8 @@ impl Ctx {
             "vacuous_classes_missing": missing,
             "machinery_errors": self.machinery_errors,
         });
-        if self.replay.is_none() && self.only.is_none() {
+        // (development runs against a scratch copy of /repo must not overwrite the evidence)
+        if self.replay.is_none() && self.only.is_none() && std::env::var("VERIF_NO_EVIDENCE").is_err() {
             let path = format!("{VERIF_DIR}/evidence/{}.json", self.evidence_name);
             let _ = std::fs::create_dir_all(format!("{VERIF_DIR}/evidence"));
             std::fs::write(&path, serde_json::to_string_pretty(&ev).unwrap()).expect("write evidence");
